@@ -116,6 +116,7 @@ func scenario(s *scen) *vsched.Scenario {
 func oracle(s *scen, w *world.World) error {
 	type hs struct {
 		streak int
+		failAt time.Duration
 		until  time.Duration
 		cause  string
 	}
@@ -129,7 +130,10 @@ func oracle(s *scen, w *world.World) error {
 		}
 		// a retry of the same item does not go through the limiter (archiver.go: "Don't use the global
 		// bucket manager in the retry loop"): the property speaks of what the limiter releases
-		if f.Attempt == 0 && f.VStart < h.until {
+		// with two assets in flight a request may have been released by the limiter before the failure of
+		// its sibling was known and reach the transport at the same instant (a runnable goroutine does not
+		// let the virtual clock advance): only a strictly later start is certainly a release inside the penalty
+		if f.Attempt == 0 && f.VStart < h.until && (s.Assets == 1 || f.VStart > h.failAt) {
 			return fmt.Errorf("release-inside-penalty:after-%s: the request for %s left at t=%v, but %s: no request to %s before t=%v", h.cause[:strings.IndexByte(h.cause, ' ')], f.URL, f.VStart, h.cause, u.Host, h.until)
 		}
 		limiting := f.Status == 429 || f.Status == 408 || f.Status == 425 || (f.Status == 403 && s.Challenge && strings.HasSuffix(u.Path, "/limited.png"))
@@ -140,7 +144,7 @@ func oracle(s *scen, w *world.World) error {
 			if pen > 30*time.Second || h.streak > 4 {
 				pen = 30 * time.Second
 			}
-			h.until = f.VStart + pen
+			h.failAt, h.until = f.VStart, f.VStart+pen
 			last := "a retried attempt"
 			if n := len(w.FetchesOf(f.URL)); f.Attempt == n-1 {
 				last = "the item's last attempt"
@@ -172,7 +176,7 @@ func scenarios(tier string) []scen {
 	}
 	if tier == "thorough" {
 		for i := range out {
-			out[i].P = 2
+			out[i].P = 1
 		}
 	}
 	return out
@@ -233,7 +237,7 @@ func main() {
 	hkit.Evidence(propID, a.Tier, "model_checking", map[string]any{
 		"states": total.States, "transitions": total.Transitions, "traces_validated_against_impl": total.Executions,
 		"samples": []any{total.Sample}, "exhaustive": total.Exhaustive, "scenarios": len(ss), "distinct_outcomes": len(outcomes),
-		"explanation": "part 3: a page whose first asset is answered 429 / 408 / 425 / a Cloudflare-challenge 403 (for ever, or once and then 200) followed by two more assets on the same host and one on another host; max-retry {0,1,2} x max-concurrent-assets {1,2}; real pipeline, rate limiter on (capacity 2, 1/s), virtual clock, canonical schedule with every select outcome (thorough: every schedule within 2 deviations). Oracle on the transport log: after the k-th rate-limiting answer in a row of a host at time t - whether it was retried or ended the item's last attempt - no request to that host starts before t + min(5 s x 2^(k-1), 30 s)",
+		"explanation": "part 3: a page whose first asset is answered 429 / 408 / 425 / a Cloudflare-challenge 403 (for ever, or once and then 200) followed by two more assets on the same host and one on another host; max-retry {0,1,2} x max-concurrent-assets {1,2}; real pipeline, rate limiter on (capacity 2, 1/s), virtual clock, canonical schedule with every select outcome (thorough: every schedule within 1 deviation). Oracle on the transport log: after the k-th rate-limiting answer in a row of a host at time t - whether it was retried or ended the item's last attempt - no request to that host starts before t + min(5 s x 2^(k-1), 30 s)",
 	}, []string{
 		"part 3: a plain 403 is not in the alphabet - the archiver reports a 403 to the limiter only when it is a discarded challenge page, and counts any other 403 as a final answer of the server",
 		"part 3: the retries of one item bypass the limiter by design (their spacing is the archiver's own back-off) and are not judged; every first attempt of an item is",
